@@ -85,6 +85,20 @@ def names_for(r, R, C, init_flat_rowmajor, trough, kind):
     wells = [(rr, cc) for rr in range(R) for cc in range(C)]
     if kind == "valid":
         return {"wells": [[list(w), r.choice(["water", f"w{i}", None])] for i, w in enumerate(wells) if init_flat_rowmajor[i] > 0 and r.random() < 0.7]}
+    if kind == "emptyshared":
+        # an empty well named like a filled one (the name itself is in use, the well is empty all the same)
+        empt = [w for i, w in enumerate(wells) if init_flat_rowmajor[i] == 0]
+        full = [w for i, w in enumerate(wells) if init_flat_rowmajor[i] > 0]
+        if not empt or not full:
+            return {"wells": [[[0, C], "ghost"]]}
+        return {"wells": [[list(r.choice(full)), "water"], [list(r.choice(empt)), "water"]]}
+    if kind == "likedefault":
+        # a filled well named like the DEFAULT name of a later filled well without a name of its own
+        full = [w for i, w in enumerate(wells) if init_flat_rowmajor[i] > 0]
+        if len(full) < 2:
+            return None
+        later = full[-1]
+        return {"wells": [[list(full[0]), "@default@%d,%d" % (later[0], later[1])]]}
     if kind == "empty":
         empt = [w for i, w in enumerate(wells) if init_flat_rowmajor[i] == 0]
         if not empt:
@@ -128,7 +142,7 @@ def cases(tier, r):
             vals = init.get("vals", [])
             flat = (vals * (R * C) if init["form"] == "scalar" else vals) if init["form"] != "none" else [0] * (R * C)
             ok_shape = len(flat) == R * C
-            for nk in (["none", "valid"] if ok_shape else ["none"]) + (["empty", "unknown"] if ok_shape and init["form"] in ("flat", "none") else []):
+            for nk in (["none", "valid"] if ok_shape else ["none"]) + (["empty", "unknown", "emptyshared", "likedefault"] if ok_shape and init["form"] in ("flat", "none") else []):
                 ps.append({"x": "ctor", "kind": "labware", "name": r.choice(["L", "stocks"]), "rows": I(R), "cols": I(C), "vrows": NOVR,
                            "minv": N(r.choice([0, 0, 1])), "maxv": N(maxv), "init": init,
                            "names": names_for(r, R, C, flat if ok_shape else [], False, nk), "tag": f"geom-{nk}"})
